@@ -33,15 +33,20 @@ import (
 const blockTs = 1000
 
 type caseSpec struct {
-	n       int
-	pattern string // "ed", "mixed", "secp", "bls"
-	invalid []int
-	pool    int // 0 = serial, else parallel with that many workers
-	second  bool // part B: also verify an all-valid block on the same pool afterwards
+	n          int
+	pattern    string // "ed", "mixed", "secp", "bls"
+	invalid    []int
+	pool       int  // 0 = serial, else parallel with that many workers
+	second     bool // part B: also verify an all-valid block on the same pool afterwards
+	concurrent bool // part B: the all-valid block is verified by a second thread at the same time (shared pool)
 }
 
 func (c caseSpec) String() string {
-	return fmt.Sprintf("txs=%d auths=%s invalid=%v pool=%d", c.n, c.pattern, c.invalid, c.pool)
+	s := fmt.Sprintf("txs=%d auths=%s invalid=%v pool=%d", c.n, c.pattern, c.invalid, c.pool)
+	if c.concurrent {
+		s += " with an all-valid block verified concurrently on the same pool"
+	}
+	return s
 }
 
 func schemeOf(pattern string, i int) string {
@@ -193,7 +198,14 @@ func (bt *built) bodyB(c caseSpec, o **obs) func() {
 			}
 			return nil
 		}
-		ob.err1 = verify(bt.blk)
+		if c.concurrent {
+			done := vsched.Make[error](1)
+			vsched.Go(func() { vsched.Send(done, verify(bt.valid)) })
+			ob.err1 = verify(bt.blk)
+			ob.err2 = vsched.Recv(done)
+		} else {
+			ob.err1 = verify(bt.blk)
+		}
 		if c.second {
 			ob.err2 = verify(bt.valid)
 		}
@@ -270,9 +282,16 @@ func main() {
 	bBound := evid.Pick(r, 1, 2)
 	var partB []sched
 	for _, c := range []caseSpec{
-		{2, "es", []int{1}, 2, false}, {2, "es", []int{0}, 2, false}, {4, "ed", []int{3}, 2, false}, {5, "ed", []int{0}, 2, false}, {3, "es", nil, 2, false}, {1, "ed", []int{0}, 1, true}, {1, "secp", []int{0}, 2, true},
+		{2, "es", []int{1}, 2, false, false}, {2, "es", []int{0}, 2, false, false}, {4, "ed", []int{3}, 2, false, false}, {5, "ed", []int{0}, 2, false, false}, {3, "es", nil, 2, false, false}, {1, "ed", []int{0}, 1, true, false}, {1, "secp", []int{0}, 2, true, false},
 	} {
 		partB = append(partB, sched{c, bBound})
+	}
+	// two blocks verified concurrently on one shared pool (vm.authVerifiers is shared by all Execute
+	// calls): the second thread multiplies the schedule space: one worker at preemption bound 1, two workers at
+	// bound 0 (every choice at blocking points, no preemptions); two workers at bound 1 only in the thorough tier
+	partB = append(partB, sched{caseSpec{1, "secp", []int{0}, 1, false, true}, 1}, sched{caseSpec{1, "secp", []int{0}, 2, false, true}, 0})
+	if r.Thorough() {
+		partB = append(partB, sched{caseSpec{2, "es", []int{0}, 2, false, true}, 0}, sched{caseSpec{1, "secp", []int{0}, 2, false, true}, 1}, sched{caseSpec{1, "ed", nil, 2, false, true}, 1}, sched{caseSpec{2, "secp", []int{1}, 2, false, true}, 1})
 	}
 	if evid.RacePass() {
 		for i := 0; i < len(cases); i += 7 {
@@ -360,7 +379,7 @@ func main() {
 	r.Cov["blocks_with_invalid_signature"] = tot["blocks_with_invalid_signature"]
 	r.Cov["blocks_all_valid"] = tot["blocks_all_valid"]
 	r.Cov["preemption_bound_partB"] = bBound
-	r.Cov["rule"] = "part A: transaction counts {0,1,3,4,5,7,8,9,12,16,17}(+{2,6,15,31,32,33}) x auth patterns {all ed25519, round-robin ed25519/secp256r1/BLS}(+{all secp256r1, all BLS}) x invalid positions {none, each single, first+last, {3,4,8}} x parallel pools of {1,2,4,16} workers; each block is followed by an all-valid block on the same pool; part B: 6 small blocks, 2 workers, every interleaving within the preemption bound; oracle: one-by-one VerifyAuth"
+	r.Cov["rule"] = "part A: transaction counts {0,1,3,4,5,7,8,9,12,16,17}(+{2,6,15,31,32,33}) x auth patterns {all ed25519, round-robin ed25519/secp256r1/BLS}(+{all secp256r1, all BLS}) x invalid positions {none, each single, first+last, {3,4,8}} x parallel pools of {1,2,4,16} workers; each block is followed by an all-valid block on the same pool; part B: 7 small blocks, 1-2 workers, every interleaving within the preemption bound, plus 2 (thorough 6) scenarios in which a second thread verifies an all-valid block on the same pool at the same time (one worker: bound 1; two workers: bound 0, thorough 1); oracle: one-by-one VerifyAuth"
 	r.Assumptions = []string{"default auth engines (ed25519 batch verifier; other schemes verified per transaction)", "invalid signature = well-formed signature of the same key over a different transaction", "crypto libraries themselves are not instrumented (they are sequential)"}
 	r.Finish()
 }
